@@ -1,15 +1,38 @@
 #!/usr/bin/env python3
-"""usage: seedtest.py <seeded/<dir>> <PROP> [<PROP>...]  — applies seeded/<dir>/patch.diff to /repo, runs the quick
-checks, restores /repo (git checkout -- .), and records the outcomes in seeded/<dir>/meta.json (key 'checks')."""
-import sys, os, json, subprocess, time
-d = os.path.abspath(sys.argv[1])
-props = sys.argv[2:]
+"""usage: seedtest.py [--in-repo] [--tier quick|thorough] <seeded/<dir>> <PROP> [<PROP>...]
+
+Runs the registered checks against a seeded change and records the outcomes in seeded/<dir>/meta.json (key 'checks').
+default    : the change is applied to a scratch copy of /repo's src/ (VERIF_REPO) and evidence/replays go to a scratch
+             directory (VERIF_OUT), so /repo, evidence/ and concurrently running checks are not disturbed; the first
+             replay of each catching check is kept as seeded/<dir>/replay-<PROP>.txt
+--in-repo  : git -C /repo apply <patch>; run; git -C /repo checkout -- .   (what a user would do)"""
+import sys, os, json, subprocess, time, shutil, tempfile, re
+args = sys.argv[1:]
+in_repo = "--in-repo" in args
+if in_repo: args.remove("--in-repo")
+tier = "quick"
+if "--tier" in args:
+    i = args.index("--tier"); tier = args[i + 1]; del args[i:i + 2]
+d = os.path.abspath(args[0])
+props = args[1:]
 patch = os.path.join(d, "patch.diff")
 def sh(c, **k): return subprocess.run(c, shell=True, capture_output=True, text=True, **k)
-assert sh("git -C /repo status --porcelain --untracked-files=no").stdout.strip() == "", "/repo has uncommitted changes"
-r = sh("git -C /repo apply --check %s" % patch)
-assert r.returncode == 0, r.stderr
-sh("git -C /repo apply %s" % patch)
+env = dict(os.environ)
+scratch = None
+if in_repo:
+    assert sh("git -C /repo status --porcelain --untracked-files=no").stdout.strip() == "", "/repo has uncommitted changes"
+    r = sh("git -C /repo apply --check %s" % patch)
+    assert r.returncode == 0, r.stderr
+    sh("git -C /repo apply %s" % patch)
+else:
+    scratch = tempfile.mkdtemp(prefix="seedrepo-", dir="/tmp")
+    os.makedirs(scratch + "/repo/test")
+    sh("cp -a /repo/src %s/repo/src && cp -a /repo/test/leakcheck %s/repo/test/leakcheck" % (scratch, scratch))
+    sh("find %s/repo -name '*.o' -o -name '*.lo' -o -name '*.la' -o -name '.libs' -prune | xargs rm -rf" % scratch)
+    r = sh("patch -p1 -d %s/repo < %s" % (scratch, patch))
+    assert r.returncode == 0, r.stdout + r.stderr
+    env["VERIF_REPO"] = scratch + "/repo"
+    env["VERIF_OUT"] = scratch + "/out"
 out = {}
 try:
     for p in props:
@@ -17,16 +40,25 @@ try:
         seeds = os.environ.get("SEEDTEST_SEEDS", "1").split(",")
         res = []
         for sd in seeds:
-            r = sh("VERIF_SEED=%s python3 /verif/tools/check.py %s --tier quick" % (sd, p), cwd="/verif")
+            e = dict(env); e["VERIF_SEED"] = sd
+            r = sh("python3 /verif/tools/check.py %s --tier %s" % (p, tier), cwd="/verif", env=e)
             viol = [l for l in r.stdout.split("\n") if l.startswith("VIOLATION")]
             res.append({"seed": int(sd), "exit": r.returncode, "violation_lines": viol[:3],
-                        "detail": [l for l in r.stderr.split("\n") if l.strip()][:3]})
-        out[p] = {"runs": res, "caught": any(x["exit"] == 1 and x["violation_lines"] for x in res),
+                        "detail": [l[:400] for l in r.stderr.split("\n") if l.strip()][:3]})
+            if viol and not in_repo:
+                m = re.search(r"replay=(\S+)", viol[0])
+                if m and os.path.exists(m.group(1)) and not os.path.exists(os.path.join(d, "replay-%s.txt" % p)):
+                    with open(m.group(1), errors="replace") as f: body = f.read(20000)
+                    open(os.path.join(d, "replay-%s.txt" % p), "w").write(body)
+                res[-1]["violation_lines"] = [re.sub(r"replay=\S*/replays/", "replay=replays/", v) for v in viol[:3]]
+        out[p] = {"tier": tier, "runs": res, "caught": any(x["exit"] == 1 and x["violation_lines"] for x in res),
                   "found_failing_input": any(x["violation_lines"] and "no-failing-input-found" not in x["violation_lines"][0] for x in res),
                   "wall_s": round(time.time() - t, 1)}
-        print(p, out[p]["caught"], out[p]["found_failing_input"], res[0]["violation_lines"][:1], res[0]["detail"][:1])
+        print(os.path.basename(d), p, "caught=%s" % out[p]["caught"], "input=%s" % out[p]["found_failing_input"],
+              res[0]["violation_lines"][:1], res[0]["detail"][:1], flush=True)
 finally:
-    sh("git -C /repo checkout -- .")
+    if in_repo: sh("git -C /repo checkout -- .")
+    else: shutil.rmtree(scratch, ignore_errors=True)
 mp = os.path.join(d, "meta.json")
 meta = json.load(open(mp)) if os.path.exists(mp) else {}
 meta.setdefault("checks", {}).update(out)
